@@ -2964,7 +2964,7 @@ func (p *parser) parseBranchStmt(tok token.Token) ast.Stmt {
 	oldpos, oldlit := p.pos, p.lit // XGo: save token to allow goto() as a function
 	pos := p.expect(tok)
 	next := p.tok
-	if next != token.IDENT && next != token.SEMICOLON { // XGo: allow goto() as a function
+	if next != token.IDENT && next != token.SEMICOLON && next != token.RBRACE { // XGo: allow goto() as a function
 		p.unget(oldpos, token.IDENT, oldlit)
 		s := p.parseSimpleStmt(basic, true)
 		p.expectSemi()
